@@ -360,7 +360,17 @@ Definition in_frame (gate : bool) (c : call) : bool :=
   Bool.eqb (is_stream_call c) (consumes_input (classify gate (call_req c))).
 
 (* ---------- harness interface -------------------------------------------------- *)
-Record input := { i_gate : bool; i_calls : list call }.
+(* i_bursts: how many calls the client puts into each write on the connection
+   (empty = one call per write). The bytes - and so everything below - do not
+   depend on it; the harness varies it to pipeline requests on real sockets. *)
+Record input := { i_gate : bool; i_calls : list call; i_bursts : list nat }.
+
+(* the history cut into the groups of calls the client writes at once *)
+Fixpoint bursts_of (sizes : list nat) (cs : list call) : list (list call) :=
+  match sizes with
+  | [] => match cs with [] => [] | _ => [cs] end
+  | n :: t => firstn n cs :: bursts_of t (skipn n cs)
+  end.
 Record obs := {
   o_streams : list stream;            (* everything the server wrote on the connection, in order *)
   o_alone : list (list stream);       (* what it writes for each call served ALONE on a fresh connection *)
